@@ -269,16 +269,28 @@ static int setup(int argc, char **argv)	/* argv[0] = kind */
 	if (!strcmp(k, "comp") && argc >= 3) {
 		int id = sqfs_compressor_id_from_name(argv[1]);
 		int unc = argv[2][0] == 'u';
+		unsigned long bs = 8192;
 		E.kind = K_COMP;
 		if (id < 0) return -1;
-		if (sqfs_compressor_config_init(&E.ccfg, id, 8192, unc ? SQFS_COMP_FLAG_UNCOMPRESS : 0)) return -1;
-		/* optional non-default configuration: level, gzip window, extra flags */
+		for (i = 6; i < argc; ++i) if (!strncmp(argv[i], "bs=", 3)) bs = strtoul(argv[i] + 3, 0, 0);
+		if (sqfs_compressor_config_init(&E.ccfg, id, bs, unc ? SQFS_COMP_FLAG_UNCOMPRESS : 0)) return -1;
+		/* optional non-default configuration: level, gzip window, extra flags (gzip strategies, xz filters / extreme, lz4 hc,
+		   lzma extreme), then key=value: dict= lc= lp= pb= (xz, lzma), bs= (block size, above) */
 		if (argc >= 4 && strcmp(argv[3], "-")) E.ccfg.level = strtoul(argv[3], 0, 0);
 		if (argc >= 5 && strcmp(argv[4], "-") && id == SQFS_COMP_GZIP) E.ccfg.opt.gzip.window_size = strtoul(argv[4], 0, 0);
 		if (argc >= 6 && strcmp(argv[5], "-")) E.ccfg.flags |= strtoul(argv[5], 0, 0);
+		for (i = 6; i < argc; ++i) {
+			int xl = id == SQFS_COMP_XZ || id == SQFS_COMP_LZMA;
+			if (!strncmp(argv[i], "bs=", 3)) continue;
+			else if (xl && !strncmp(argv[i], "dict=", 5)) E.ccfg.opt.xz.dict_size = strtoul(argv[i] + 5, 0, 0);
+			else if (xl && !strncmp(argv[i], "lc=", 3)) E.ccfg.opt.xz.lc = strtoul(argv[i] + 3, 0, 0);
+			else if (xl && !strncmp(argv[i], "lp=", 3)) E.ccfg.opt.xz.lp = strtoul(argv[i] + 3, 0, 0);
+			else if (xl && !strncmp(argv[i], "pb=", 3)) E.ccfg.opt.xz.pb = strtoul(argv[i] + 3, 0, 0);
+			else return -1;
+		}
 		if (unc) {
 			sqfs_compressor_config_t c2;
-			sqfs_compressor_config_init(&c2, id, 8192, 0);
+			sqfs_compressor_config_init(&c2, id, bs, 0);
 			if (sqfs_compressor_create(&c2, &E.helper_cmp)) return -1;
 		}
 	} else if (!strcmp(k, "idtable")) E.kind = K_IDT;
